@@ -15,6 +15,8 @@
             vec![(vec![2.0, 1.0], Comparison::Equal, 3.0), (vec![1.0, 0.0], Comparison::LessOrEqual, 9.0), (vec![0.0, 1.0], Comparison::GreaterOrEqual, -9.0), (vec![1.0, 0.0], Comparison::GreaterOrEqual, -9.0), (vec![0.0, 1.0], Comparison::LessOrEqual, 9.0)],
             vec![(vec![1.0, 2.0], Comparison::GreaterOrEqual, -4.0), (vec![1.0, 2.0], Comparison::LessOrEqual, 8.0), (vec![3.0, -1.0], Comparison::LessOrEqual, 7.0), (vec![3.0, -1.0], Comparison::GreaterOrEqual, -7.0)],
             vec![(vec![1.0, 1.0], Comparison::LessOrEqual, -20.0), (vec![1.0, 1.0], Comparison::GreaterOrEqual, 20.0)],
+            // rows that leave a ray open and do not all involve the ray variable
+            vec![(vec![0.0, 1.0], Comparison::LessOrEqual, 3.0), (vec![1.0, -1.0], Comparison::GreaterOrEqual, -2.0)],
             vec![(vec![0.0, 1.0], Comparison::LessOrEqual, 2.0), (vec![0.0, 1.0], Comparison::GreaterOrEqual, -2.0), (vec![1.0, 0.0], Comparison::LessOrEqual, 3.5), (vec![1.0, 0.0], Comparison::GreaterOrEqual, -0.000001)],
         ];
         let objs = [vec![1.0, 2.0], vec![-1.0, 1.0], vec![1.0, 0.0], vec![0.0, -3.0]];
@@ -34,7 +36,8 @@
                 // reference: the microlp bridge with a time limit (microlp itself does not return on some LPs with an unbounded optimal face:
                 // those cases come back as LimitReached and are skipped)
                 let b = solve_milp_lp_problem_with(&lp, &MilpOptions { mip_gap: None, time_limit: Some(std::time::Duration::from_millis(150)) });
-                let va = match &a { Ok(_) => "optimal", Err(SolverError::Infeasible) => "infeasible", Err(SolverError::Unbounded) => "unbounded", Err(_) => "other" };
+                // the tableau path has no time limit: every answer other than a verdict (or its iteration limit) is a failure to reach one of the three verdicts
+                let va = match &a { Ok(_) => "optimal", Err(SolverError::Infeasible) => "infeasible", Err(SolverError::Unbounded) => "unbounded", Err(SolverError::LimitReached) => "other", Err(_) => "no-verdict" };
                 let vb = match &b { Ok(_) => "optimal", Err(SolverError::Infeasible) => "infeasible", Err(SolverError::Unbounded) => "unbounded", Err(_) => "other" };
                 let mut bad = va != vb && va != "other" && vb != "other";
                 let mut detail = String::new();
